@@ -79,6 +79,32 @@ def r14_1(ctx):
         D.closure(root[2][0])
         if any(is_call(x, 'AsMut::as_mut') and is_self_field(strip_all(x[2][0]), 'buf') for x in D.visited):
             px.append((a, v, pt))
+    # the same loop as an internal iteration: buf.as_mut().iter_mut().for_each(|pixel| *pixel = color)
+    if not px:
+        for bi0, d0, ct0 in calls_in(ctx, c):
+            if not (d0 and d0.endswith('Iterator::for_each')):
+                continue
+            D = Deps(can)
+            D.closure(ct0[2][0])
+            if not any(is_call(x, 'AsMut::as_mut') and is_self_field(strip_all(x[2][0]), 'buf') for x in D.visited):
+                continue
+            clo = strip_all(ct0[2][1])
+            if clo[0] == 'mem':
+                clo = shared.resolve_mem(can, clo)
+            if clo[0] != 'agg' or clo[1] != 'closure':
+                continue
+            cbody = ctx.F.body(clo[2])
+            if cbody is None:
+                continue
+            cban = ctx.an(cbody)
+            sts = [(a2, v2, pt2) for a2, v2, pt2, k2 in cban.stores if k2 == 'assign']
+            if len(sts) == 1 and strip_all(sts[0][0]) in (('deref', ('param', 2)),) and shared.upvar_index(strip_all(sts[0][1])) is not None:
+                up = strip_all(clo[4][shared.upvar_index(strip_all(sts[0][1]))][1])
+                while up[0] in ('ref', 'deref'):
+                    up = strip_all(up[1])
+                if up[0] == 'mem':
+                    up = shared.resolve_mem(can, up)
+                px.append((sts[0][0], up, (bi0, len(c.blocks[bi0]['st']))))
     if ctx.check(len(px) >= 1, R, ckey + '|direct fill', c.loc(), 'direct fill store found', 'no direct pixel store found in clear (fail closed)'):
         for a, v, pt in px:
             ok = is_call(strip_all(v), 'SolidSource::to_u32') and strip_all(strip_all(v)[2][0]) == ('param', 2)
@@ -95,6 +121,9 @@ def r14_1(ctx):
         ctx.check(ok, R, ckey + '|slow source', call_line(c, bi2), 'fill with Source::Solid(solid)', 'clear\'s clipped route does not fill with the requested colour')
         # the clipped route fills under the identity: a store of identity() to self.transform dominates the fill
         ids = [pt for a, v, pt, kind in can.stores if kind == 'assign' and field_path(a) == (('param', 1), ['transform']) and is_call(v, 'identity')]
+        # mem::replace(&mut self.transform, identity()) overwrites as well
+        ids += [pt for a, v, pt, kind in can.stores if kind == 'call' and is_self_field(strip_all(a), 'transform') and is_call(strip_all(v), 'mem::replace')
+                and len(strip_all(v)[2]) == 2 and is_call(strip_all(strip_all(v)[2][1]), 'identity')]
         okid = any(can.cfg.dominates(pt[0], bi2) for pt in ids)
         # ... and it is still the identity when fill() runs: no other store to self.transform can reach the fill after it
         others = [pt for a, v, pt, kind in can.stores if kind == 'assign' and field_path(a) == (('param', 1), ['transform']) and not is_call(v, 'identity')]
